@@ -150,6 +150,18 @@ bool Interp::exec_coll(Interp &I, const Stmt &s)
         }
         return true;
     }
+    if (s.op == "nkeys")
+    {
+        // nkeys <tsd port> uid=<u> nest=0|1|2: keys_ reader (mirror uid u) and a dictionary mirror (uid u+1) inline / nested
+        PortVal d = I.get(a.at(0));
+        Port<S_TSD> in{w, d.ref};
+        const Int u = s.kwi("uid");
+        Port<TS<Int>> out = s.kwi("nest", 0) == 0 ? wire<SubKeys>(w, in, u)
+                            : s.kwi("nest", 0) == 1 ? nested_<SubKeys>(w, in, u).template as<TS<Int>>()
+                                                    : nested_<SubKeys2>(w, in, u).template as<TS<Int>>();
+        I.env[s.dst] = PortVal{out.erased(), PT::Int, "ts"};
+        return true;
+    }
     if (s.op == "mesh")
     {
         // mesh fn=<spec> <tsd values> <tsd links>: per-key instances that may read each other's results (meshref inside fn)
